@@ -12,6 +12,10 @@ import (
 type ResourceListBuilder struct {
 	resourceBySubject   map[rdf.SubjectValue]ObjectStatementList
 	blankNodeReferences map[rdf.BlankNodeIdentifier]int
+
+	// blankNodeReferrer is the subject of the most recent statement whose object is the blank node; it is the only
+	// referrer when the blank node has a single reference.
+	blankNodeReferrer map[rdf.BlankNodeIdentifier]rdf.SubjectValue
 }
 
 var _ triples.GraphWriter = &ResourceListBuilder{}
@@ -21,6 +25,7 @@ func NewResourceListBuilder() *ResourceListBuilder {
 	return &ResourceListBuilder{
 		resourceBySubject:   map[rdf.SubjectValue]ObjectStatementList{},
 		blankNodeReferences: map[rdf.BlankNodeIdentifier]int{},
+		blankNodeReferrer:   map[rdf.BlankNodeIdentifier]rdf.SubjectValue{},
 	}
 }
 
@@ -41,6 +46,7 @@ func (rb *ResourceListBuilder) Add(triples ...rdf.Triple) {
 		switch objectSubject := t.Object.(type) {
 		case rdf.BlankNode:
 			rb.blankNodeReferences[objectSubject.Identifier]++
+			rb.blankNodeReferrer[objectSubject.Identifier] = t.Subject
 		}
 	}
 }
@@ -86,7 +92,7 @@ func (rb *ResourceListBuilder) ExportResources(opts ExportResourceOptions) iter.
 	return func(yield func(Resource) bool) {
 		for subject := range rb.resourceBySubject {
 			if opts.Inline {
-				if bn, ok := subject.(rdf.BlankNode); ok && rb.blankNodeReferences[bn.Identifier] == 1 {
+				if bn, ok := subject.(rdf.BlankNode); ok && rb.isInlined(bn) {
 					continue
 				}
 			}
@@ -115,12 +121,37 @@ func (rb *ResourceListBuilder) ExportResource(s rdf.SubjectValue, opts ExportRes
 	}
 }
 
+// isInlined reports whether the blank node is exported nested inside its only referrer. That requires the chain of
+// only-referrers to end at a resource which is exported on its own; blank nodes which only reference each other in a
+// cycle (including a blank node referencing itself) have no such resource and are exported by name instead.
+func (rb *ResourceListBuilder) isInlined(bn rdf.BlankNode) bool {
+	if rb.blankNodeReferences[bn.Identifier] != 1 {
+		return false
+	}
+
+	seen := map[rdf.BlankNodeIdentifier]struct{}{
+		bn.Identifier: {},
+	}
+
+	for referrer := rb.blankNodeReferrer[bn.Identifier]; ; {
+		referrerBlankNode, ok := referrer.(rdf.BlankNode)
+		if !ok || rb.blankNodeReferences[referrerBlankNode.Identifier] != 1 {
+			return true
+		} else if _, cycle := seen[referrerBlankNode.Identifier]; cycle {
+			return false
+		}
+
+		seen[referrerBlankNode.Identifier] = struct{}{}
+		referrer = rb.blankNodeReferrer[referrerBlankNode.Identifier]
+	}
+}
+
 func (rb *ResourceListBuilder) ExportResourceStatements(subject rdf.SubjectValue, opts ExportResourceOptions) StatementList {
 	var statements StatementList
 
 	for _, statement := range rb.resourceBySubject[subject] {
 		if opts.Inline {
-			if bn, ok := statement.Object.(rdf.BlankNode); ok && rb.blankNodeReferences[bn.Identifier] == 1 {
+			if bn, ok := statement.Object.(rdf.BlankNode); ok && rb.isInlined(bn) {
 				statements = append(statements, AnonResourceStatement{
 					Predicate: statement.Predicate,
 					AnonResource: AnonResource{
